@@ -145,6 +145,30 @@ CHECKS["C11"] = dict(
     note="Exact arithmetic for the phase (float32 evaluation near bin edges outside the claim); small shapes; accel != 0 only with enumerated offsets.",
     design="DESIGN.md section 4 (C11)")
 
+CHECKS["C17"] = dict(
+    engine="E2/E3 pysym on the real FoldedData.update_dm/update_period/_get_dmdelays/_get_pdelays with the real compute_dmdelays over exact symbolic reals; z3",
+    technique="symbolic execution of the real update/bookkeeping bytecode over histories of re-tuning operations with free real DM targets (profiles modelled as rotation offsets); z3 (LIRA with to_int) decides equality with a fresh cube and with an independent shift specification; models replayed on the real FoldedData",
+    text="For every history of length <= 3 (quick) / 4 (thorough) over update_dm(free real target), update_dm(folding DM), update_dm(previous "
+         "target) and update_period(p) for p in a small alphabet, the real methods run symbolically on a cube whose profiles are rotation "
+         "offsets; on every path z3 proves that each profile's rotation equals that of a fresh cube re-tuned once to the final targets and the "
+         "independently specified shift of the final DM/period relative to the folding values (so repeats are no-ops and returning to the "
+         "folding values restores the cube), and that dm/period report the last targets.",
+    note="Exact arithmetic with half-even rounding; DM targets in [0,1000]; absolute-shift obligation excludes a 1e-6 neighbourhood of rounding "
+         "boundaries; period targets from an alphabet; profile contents are not modelled (updates only call np.roll).",
+    design="DESIGN.md section 4 (C17)")
+
+CHECKS["C18"] = dict(
+    engine="E2 pysym on the real PFITSReader.read_block/read_plan and PFITSFile.read_subints index arithmetic; E3 on read_subint/read_subint_pol over object arrays of symbolic reals; z3",
+    technique="dynamic symbolic execution of the real PSRFITS reader bytecode with NSBLK, row count, start, nsamps, gulp, skipback as unbounded integers (row reads as a contract); value pipeline over exact symbolic reals; z3 decides; models replayed on the repository's PSRFITS test file",
+    text="read_block: for every (start, nsamps) the rows requested exist, are consecutive, the slice is exactly [start, start+nsamps), out-of-range "
+         "requests raise ValueError, in-range ones never do, channels come out descending. read_plan: blocks hold exactly the reported samples "
+         "and tile the request as in C01 (same obligations). Value pipeline: ((raw - zero_off)*scale + offset)*weight and the polarisation "
+         "selection are proved for symbolic raw values/scales/offsets/weights at a small shape. Streaming reductions then follow from C06, which "
+         "only depends on the read_plan contract.",
+    note="astropy.io.fits is FFI: row access is a contract stub; header value types are outside; replay only at the shape of tests/data/parkes_4bit.sf; "
+         "single-polarisation layouts are not claimed.",
+    design="DESIGN.md section 4 (C18)")
+
 NOT_APPLICABLE = {}
 
 PENDING = "check not built yet in this round (see DESIGN.md section 8 for the build order); no claim is made"
